@@ -54,6 +54,11 @@ def gen_case(seed, tier, index=0):
     if rng.chance(0.4):
         # further files named in the same invocations: the tool iterates a set of paths (hash-seed order)
         extras = rng.sample(["zz/data.json", "zz/other.py", "zz/logo.png", "zz/notes.txt"], rng.randint(1, 2))
+    if rng.chance(0.15):
+        # two files whose types are told apart by their NAMES although they share a suffix: one takes a comment header,
+        # the other can only have a .license companion
+        extras = rng.pick([["zz/Cargo.lock", "zz/poetry.lock"], ["zz/Cargo.lock", "zz/yarn.lock", "zz/poetry.lock"],
+                           ["zz/setup.cfg", "zz/data.json"], ["zz/go.mod", "zz/logo.png"]])
     if use_ext and not dot_license and rng.chance(0.3):
         # files of the same type as the target, named in most invocations: what one of them already declares (a
         # contributor the others lack) must survive whichever of them the tool works on first
